@@ -1105,6 +1105,8 @@ pub struct DomBfs {
     /// C14: queries evaluated BEFORE and after every transition with one long-lived evaluation context: what they select
     /// after the edit must not depend on their having been evaluated before it
     pub warm_queries: &'static [&'static str],
+    /// per initial document: histories longer than this are not generated (empty = the stage depth alone decides)
+    pub max_depth: Vec<usize>,
 }
 
 pub fn parse_frontier(input: &[String]) -> Vec<(usize, Vec<Op>)> {
@@ -1545,7 +1547,8 @@ impl DomBfs {
                     }
                 }
             }
-            if self.expand && rep.changed && !panicked && !broken {
+            let within_depth = self.max_depth.get(*doc).map(|m| h2.len() < *m).unwrap_or(true);
+            if self.expand && within_depth && rep.changed && !panicked && !broken {
                 // C13 explores only states where model and implementation still agree
                 if !self.monitors.spec || live.model.is_some() || self.docs[*doc].expanded {
                     sink.successor(format!("{}|{:016x}", doc, crate::engine::proto::fnv64(&live.state_key())), encode_state(*doc, &h2));
